@@ -43,6 +43,9 @@ func runC15(rc *RunCtx) {
 	prom := newPromMetricsWith(rc, nil)
 	m := &RecMetrics{Inner: prom}
 	srv := startTCPServer(rc, w, tcpServerOpts{Keys: keys, Replay: 200, Timeout: time.Second, Metrics: m, Debug: rc.F.Draw(3) == 1})
+	if rc.F.Draw(4) == 1 {
+		w.EOFWithData = []int{300, 1000}[rc.F.Draw(2)] // a target stream's last bytes may arrive together with its end
+	}
 	rc.PostData = m
 	if rc.F.Draw(3) == 1 {
 		w.Window = []int{700, 3000}[rc.F.Draw(2)]
